@@ -103,19 +103,19 @@ type Violation struct {
 
 // Result is what a child leaves behind for the driver.
 type Result struct {
-	Prop         string           `json:"property"`
-	Sub          string           `json:"sub,omitempty"`
-	Child        int              `json:"child"`
-	Evaluations  int              `json:"evaluations"`
-	Nontrivial   []string         `json:"nontrivial"` // distinct keys of non-trivial cases
-	Violations   []Violation      `json:"violations"`
-	Inconclusive []string         `json:"inconclusive"`
-	Samples      []any            `json:"samples"`
-	Counters     map[string]int64 `json:"counters"`
+	Prop         string              `json:"property"`
+	Sub          string              `json:"sub,omitempty"`
+	Child        int                 `json:"child"`
+	Evaluations  int                 `json:"evaluations"`
+	Nontrivial   []string            `json:"nontrivial"` // distinct keys of non-trivial cases
+	Violations   []Violation         `json:"violations"`
+	Inconclusive []string            `json:"inconclusive"`
+	Samples      []any               `json:"samples"`
+	Counters     map[string]int64    `json:"counters"`
 	Sets         map[string][]string `json:"sets"`
-	Exhaustive   bool             `json:"exhaustive,omitempty"`
-	Done         bool             `json:"done"`
-	WallS        float64          `json:"wall_s"`
+	Exhaustive   bool                `json:"exhaustive,omitempty"`
+	Done         bool                `json:"done"`
+	WallS        float64             `json:"wall_s"`
 }
 
 // Reporter accumulates the result of a child process.
@@ -262,7 +262,11 @@ func (r *Reporter) Violation(caseIdx int, sig, what string, replay any) {
 func (r *Reporter) SetExhaustive(b bool) { r.mu.Lock(); r.res.Exhaustive = b; r.mu.Unlock() }
 
 // NumViolations returns the number of violations so far.
-func (r *Reporter) NumViolations() int { r.mu.Lock(); defer r.mu.Unlock(); return len(r.res.Violations) }
+func (r *Reporter) NumViolations() int {
+	r.mu.Lock()
+	defer r.mu.Unlock()
+	return len(r.res.Violations)
+}
 
 // Flush writes the result file; Done marks normal completion.
 func (r *Reporter) Flush(done bool) {
